@@ -45,15 +45,28 @@ def mostCommonType (values : List (Option SV)) : Nat × List SV :=
 def medianOf {α} [Inhabited α] (le : α → α → Bool) (xs : List α) : α :=
   (xs.mergeSort le)[xs.length / 2]!
 
+/-- what the decimal/quote branch of `MedianAggregator` extracts from one value -/
+def usableDec : Option SV → Option Dec
+  | some (.dec d) => some d
+  | some (.quote _ bm _) => some bm
+  | _ => none
+
 /-- the `case LLOStreamValue_Decimal, LLOStreamValue_Quote` branch of `MedianAggregator`:
     iterates over *all* values, takes `Benchmark` of quotes, skips everything else -/
 def medianDQ (values : List (Option SV)) (f : Nat) : GoRes SV :=
-  let observations : List Dec := values.filterMap fun
-    | some (.dec d) => some d
-    | some (.quote _ bm _) => some bm
-    | _ => none
+  let observations : List Dec := values.filterMap usableDec
   if observations.length ≤ f then .err "not-enough"
   else .ok (.dec (medianOf Dec.le observations))
+
+/-- `svalues[i]` of the timestamped branch: the nested decimal, nil for anything else -/
+def tsvInner : SV → Option SV
+  | .tsv _ (.dec d) => some (.dec d)
+  | _ => none
+
+/-- `timestamps[i]` of the timestamped branch: observed-at, 0 for skipped entries -/
+def tsvTime : SV → Nat
+  | .tsv t (.dec _) => t
+  | _ => 0
 
 /-- `MedianAggregator`.  The timestamped branch builds `svalues` (nil for skipped entries) and
     `timestamps` (0 for skipped entries) and recurses once; since `svalues` only holds decimals
@@ -61,12 +74,8 @@ def medianDQ (values : List (Option SV)) (f : Nat) : GoRes SV :=
 def medianAgg (values : List (Option SV)) (f : Nat) : GoRes SV :=
   let (typ, typValues) := mostCommonType values
   if typ = 2 then
-    let svalues : List (Option SV) := typValues.map fun
-      | .tsv _ (.dec d) => some (.dec d)
-      | _ => none
-    let timestamps : List Nat := typValues.map fun
-      | .tsv t (.dec _) => t
-      | _ => 0
+    let svalues : List (Option SV) := typValues.map tsvInner
+    let timestamps : List Nat := typValues.map tsvTime
     match medianDQ svalues f with
     | .ok mv => .ok (.tsv (medianOf (fun a b => decide (a ≤ b)) timestamps) mv)
     | .err e => .err e
@@ -74,11 +83,14 @@ def medianAgg (values : List (Option SV)) (f : Nat) : GoRes SV :=
   else if typ = 0 || typ = 1 then medianDQ values f
   else .err "unsupported-type"
 
+/-- a quote that passes `IsValid`, as (bid, benchmark, ask) -/
+def validQuote : Option SV → Option (Dec × Dec × Dec)
+  | some (.quote bid bm ask) => if quoteValid bid bm ask then some (bid, bm, ask) else none
+  | _ => none
+
 /-- `QuoteAggregator`: three successive sorts of the same slice -/
 def quoteAgg (values : List (Option SV)) (f : Nat) : GoRes SV :=
-  let observations : List (Dec × Dec × Dec) := values.filterMap fun
-    | some (.quote bid bm ask) => if quoteValid bid bm ask then some (bid, bm, ask) else none
-    | _ => none
+  let observations : List (Dec × Dec × Dec) := values.filterMap validQuote
   if observations.length ≤ f then .err "not-enough"
   else
     let n := observations.length
